@@ -10,8 +10,7 @@
   numeric weights and limits come from `Gen/MetaConsts.lean`, which
   `tools/lv/extract_meta.py` regenerates from the C source.
 
-  Quirks that are modelled as they are (see also LouModel/QUIRKS-meta in the
-  docstrings below):
+  Quirks that are modelled as they are:
   * a query keeps, of several features with the same key, the LAST one; a table
     keeps, of several features with the same key and (case-insensitively) the same
     value, the LAST one (list_conj prepends, list_sort keeps the first it meets);
@@ -104,12 +103,6 @@ def Val.tagOf : Val → List Str
 def Val.strOf : Val → Str
   | .str s => s
   | .tag _ => []
-
-/-- the value has the C type that readers of this key assume -/
-def Feat.wellTyped (f : Feat) : Bool :=
-  match f.val with
-  | .tag t => isLangKey f.key && !t.isEmpty
-  | .str _ => !isLangKey f.key
 
 /-! ## LIST (metadata.c:57–141) -/
 
